@@ -17,7 +17,7 @@ Sections
  5. step lemmas: `testrequest_echoed`, `one_outstanding_*`, `wrong_id_logout`, `right_id_clears`,
     `heartbeat_without_id_ignored`
 -/
-import AsyncFix.Lemmas.SessionWatchdogDec
+import AsyncFix.Lemmas.SessionWatchdogWide2
 namespace AsyncFix.Props.C12
 open AsyncFix.Session AsyncFix.Session.Watchdog AsyncFix.Generated AsyncFix.Generated.ConnEnum
 
@@ -349,6 +349,33 @@ example : NoDisc (run (fun _ => true) c0await (hist replayHist)).2 ∧
       (by simp [Paced, replayHist, c0await, c0, env0]) (benignRunB_sound (by decide +kernel))).2,
    by decide +kernel⟩
 
+/-- … and with frames numbered TOO HIGH interleaved at any time (`stray`: Heartbeats, TestRequests,
+application frames with a sequence gap; they are dispatched – an echo still clears the TestReqID, outside
+RESENDREQ_AWAITING a ResendRequest goes out – but not accepted, so they neither count as traffic nor hurt) and
+with ignored ResendRequests among the accepted frames (`Benign` admits them). -/
+theorem live_peer_spared_traffic_wide (sr : Msg → Bool) (h : Int) (hh : 1 ≤ h) (c : Conn) (evs : List XEv)
+    (ho : On h c) (hn : c.testReqId = none) (ht0 : 1000 ≤ c.lastTime)
+    (hp : PacedX (h * 2 * 1000) c.lastTime evs) (hb : TolerableRun sr c evs) :
+    On h (run sr c (xhist evs)).1 ∧ NoDisc (run sr c (xhist evs)).2 :=
+  paced_run_wide sr h hh c.lastTime c evs ho ht0 (Int.le_refl _) (Or.inl hn) hp hb
+
+/-- non-vacuity (h = 2, from ACTIVE): probe at 101 500; the echo arrives numbered 2 too high (→ ResendRequest,
+RESENDREQ_AWAITING, id cleared); a ResendRequest for numbers never sent and the peer's GapFill-less replay
+follow; ticks every second -/
+def wideHist : List XEv :=
+  [.tick (env0 100500), .tick (env0 101500), .stray (env0 101700) (peerMsg "0" "7" [(112, "101")]),
+   .tick (env0 102500), .recv (env0 103000) (peerMsg "D" "5" [(43, "Y"), (11, "a")]), .tick (env0 103500),
+   .recv (env0 104000) (peerMsg "2" "6" [(7, "0"), (16, "0")]), .tick (env0 104500), .tick (env0 105500),
+   .stray (env0 105600) (peerMsg "1" "9" [(112, "Q")]), .tick (env0 106500),
+   .recv (env0 107000) (peerMsg "D" "7" [(43, "Y"), (11, "b")]), .tick (env0 107500)]
+
+example : NoDisc (run (fun _ => true) c0 (xhist wideHist)).2 ∧
+    (run (fun _ => true) c0 (xhist wideHist)).1.state = st_ACTIVE ∧
+    (run (fun _ => true) c0 (xhist wideHist)).1.testReqId = none :=
+  ⟨(live_peer_spared_traffic_wide (fun _ => true) 2 (by omega) c0 wideHist c0_up.on rfl (by decide)
+      (by simp [PacedX, wideHist, c0, env0]) (tolerableRunB_sound (by decide +kernel))).2,
+   by decide +kernel, by decide +kernel⟩
+
 /-! ## 5. step lemmas -/
 
 /-- `testrequest_echoed`: a valid in-sequence TestRequest on a logged-on connection, reply sendable:
@@ -422,6 +449,47 @@ theorem heartbeat_without_id_ignored (sr : Msg → Bool) (env : Env) (h tid : In
   rw [recv_heartbeat_idle sr env c m (active_ge8 ha.active) (active_watermark ha.active) hi hm (Or.inr hv)]
   obtain ⟨f1, f2, f3, f4, f5, f6, f7⟩ := finalized_ctl env c m (active_not_promoted ha.active)
   exact ⟨⟨⟨f1.trans ha.active, f2.trans ha.sock, f3.trans ha.hb⟩, f4.trans ha.tid⟩, f5 ha.active, f7, f6⟩
+
+/-- an inbound ResendRequest for numbers never sent (BeginSeqNo < 1 or ≥ `next_num_out`) is ignored and
+leaves the session ACTIVE – the watchdog goes on probing –, and it counts as a received frame. -/
+theorem ignored_resend_request_keeps_active (sr : Msg → Bool) (env : Env) (h : Int) (c : Conn) (m : Msg)
+    (hu : Up h c) (hi : InSeq c m) (hig : IgnoredResend c m) :
+    Up h (recv sr env c m).1 ∧ (recv sr env c m).1.lastTime = env.now ∧
+    (recv sr env c m).1.testReqId = c.testReqId ∧ NoDisc (recv sr env c m).2 := by
+  have hb : Benign c m := ⟨hi, Or.inr hig, fun hm => by rw [hig.1] at hm; exact absurd hm (by decide)⟩
+  obtain ⟨u1, l1, t1, n1, _⟩ := recv_benign sr env h c m hu hb
+  have hech : echoes c m = false := by simp [echoes, hig.1, mResendRequest, mHeartbeat]
+  exact ⟨u1, l1, by rw [t1, hech]; rfl, n1⟩
+
+/-- the echo of the outstanding TestRequest arriving with a sequence GAP (numbered too high) still clears it;
+the connection asks for the missing frames (the first frame written is the ResendRequest; state
+RESENDREQ_AWAITING); the echo itself is not accepted, `lastTime` stays. -/
+theorem echo_with_gap_clears (sr : Msg → Bool) (env : Env) (h tid : Int) (c : Conn) (m : Msg) (v : String)
+    (j : Journal) (ha : Armed h tid c) (hg : GapFrame c m) (hm : m.mtype = mHeartbeat)
+    (hv : m.get? tTestReqID = some v) (n : Int) (hn : (m.get? tMsgSeqNum).bind pyInt = some n)
+    (hl : frameLatin1 (frameOf env { c with maxResend := n } (resendReqMsg c)) = true)
+    (hj : c.journal.persist .outbound c.sess.nextOut (frameOf env { c with maxResend := n } (resendReqMsg c)) = some j) :
+    (recv sr env c m).1.testReqId = none ∧ (recv sr env c m).1.state = st_RESENDREQ_AWAITING ∧
+    (recv sr env c m).1.lastTime = c.lastTime ∧ NoDisc (recv sr env c m).2 ∧
+    ∃ e3, (recv sr env c m).2 = [.write (frameOf env { c with maxResend := n } (resendReqMsg c)),
+      .onState st_RESENDREQ_AWAITING] ++ e3 := by
+  obtain ⟨vs, hvs, hp⟩ := bind_pyInt hn
+  obtain ⟨n', hn', hlt⟩ := hg.seq
+  have hnn : n' = n := by rw [hn] at hn'; exact (Option.some.inj hn').symm
+  subst hnn
+  have h8 := active_ge8 ha.active
+  have hck := checkSeqnumGaps_high env c n' h8 ha.sock hlt
+  rw [if_neg (by rw [ha.active]; decide), hl, hj] at hck
+  simp only [Bool.true_eq_false, if_false] at hck
+  have hh := bind_ok (f := fun valid => (pure (some (valid, n')) : M (Option (Bool × Int)))) hck
+  rw [← processHead_numbered env c m vs n' h8 hg.routine.headable hvs hp] at hh
+  obtain ⟨e3, he, hn3, _, _, hs3, hl3, ht3⟩ := recv_gap_via sr env h c
+    { sent { c with maxResend := n' } j with state := st_RESENDREQ_AWAITING } m n'
+    [.write (frameOf env { c with maxResend := n' } (resendReqMsg c)), .onState st_RESENDREQ_AWAITING] hg
+    ⟨(by show 8 ≤ st_RESENDREQ_AWAITING; decide), ha.sock, ha.hb, fun _ => (by show 0 < n'; have := hg.pos; omega)⟩
+    rfl rfl (swallow_ok hh)
+  have hech : echoes c m = true := by simp [echoes, hm, hv, ha.tid]
+  exact ⟨by rw [ht3, hech]; rfl, hs3, hl3, by rw [he]; exact NoDisc.append (by simp [NoDisc, isDisc]) hn3, e3, he⟩
 
 /-- non-vacuity of the step lemmas' hypotheses on `c0` with id 101 outstanding -/
 def c0armed : Conn := { c0 with testReqId := some 101, lastTime := 101500 }
